@@ -223,13 +223,14 @@ def decodeAux : Nat → List Byte → List Nat
   | _, [] => []
   | skip + 1, _ :: t => decodeAux skip t
   | 0, b0 :: t =>
-    let bad := 0xFFFD :: decodeAux 0 t
+    -- (a thunk: a strict `let` here would decode the tail twice at every byte)
+    let bad := fun (_ : Unit) => 0xFFFD :: decodeAux 0 t
     if b0 < 0x80 then b0.toNat :: decodeAux 0 t
     else if 0xC2 ≤ b0 && b0 ≤ 0xDF then
       match t with
       | b1 :: _ =>
-        if isCont b1 then ((b0.toNat - 0xC0) * 64 + (b1.toNat - 0x80)) :: decodeAux 1 t else bad
-      | _ => bad
+        if isCont b1 then ((b0.toNat - 0xC0) * 64 + (b1.toNat - 0x80)) :: decodeAux 1 t else bad ()
+      | _ => bad ()
     else if 0xE0 ≤ b0 && b0 ≤ 0xEF then
       match t with
       | b1 :: b2 :: _ =>
@@ -237,8 +238,8 @@ def decodeAux : Nat → List Byte → List Nat
         let hi : Byte := if b0 == 0xED then 0x9F else 0xBF
         if lo ≤ b1 && b1 ≤ hi && isCont b2 then
           ((b0.toNat - 0xE0) * 4096 + (b1.toNat - 0x80) * 64 + (b2.toNat - 0x80)) :: decodeAux 2 t
-        else bad
-      | _ => bad
+        else bad ()
+      | _ => bad ()
     else if 0xF0 ≤ b0 && b0 ≤ 0xF4 then
       match t with
       | b1 :: b2 :: b3 :: _ =>
@@ -247,9 +248,9 @@ def decodeAux : Nat → List Byte → List Nat
         if lo ≤ b1 && b1 ≤ hi && isCont b2 && isCont b3 then
           ((b0.toNat - 0xF0) * 262144 + (b1.toNat - 0x80) * 4096 + (b2.toNat - 0x80) * 64
             + (b3.toNat - 0x80)) :: decodeAux 3 t
-        else bad
-      | _ => bad
-    else bad
+        else bad ()
+      | _ => bad ()
+    else bad ()
 
 def decodeRunes (s : List Byte) : List Nat := decodeAux 0 s
 
